@@ -126,7 +126,7 @@ def run(ctx):
     for i in range(1500 if thorough else 120):
         rc_ = ca.relations_case(rng)
         ca.run_relations(S, rc_, rng.choice(formats_of(rc_)))
-    for i in range(900 if thorough else 70):
+    for i in range(1200 if thorough else 110):
         one(ca.int_weights_case(rng), "int-weights")
     for i in range(500 if thorough else 40):
         one(ca.int_weights_case(rng, kind=ca.KINDS[i % 4] if i % 2 else "count", scalar=True), "int-scalar-weight")
